@@ -297,8 +297,15 @@ def _batch(prop, base_seed, tier, start, count, deadline, known):
             agg["stats"]["runs_cut_at_wall_clock_limit"] = agg["stats"].get("runs_cut_at_wall_clock_limit", 0) + 1
             continue
         except Exception:
-            agg["error"] = {"run_index": i, "trace": traceback.format_exc()}
-            break
+            # the run could not be carried out (the harness, or labrea while the program was being built, raised): that is
+            # no verdict; the search goes on -- a tree that breaks a property may also break the harness for SOME programs --
+            # and the first such trace is reported (exit 2 unless a violation is found as well)
+            if agg["error"] is None:
+                agg["error"] = {"run_index": i, "trace": traceback.format_exc()}
+            agg["stats"]["runs_that_crashed"] = agg["stats"].get("runs_that_crashed", 0) + 1
+            if agg["stats"]["runs_that_crashed"] > 25:
+                break
+            continue
         agg["runs"] += 1
         for k, v in res.stats.items():
             agg["stats"][k] = agg["stats"].get(k, 0) + v
@@ -511,7 +518,8 @@ def drive(prop, tier, base_seed, workers=None):
                         agg["samples"].extend(a["samples"][: 3 - len(agg["samples"])])
                     if a["error"]:
                         agg["errors"].append(a["error"])
-                        stop = True
+                        if len(agg["errors"]) > 40:
+                            stop = True
                     if a["raw"]:
                         raw_hits.append((a["raw"], a["start"]))
                         stop = True
@@ -533,7 +541,7 @@ def drive(prop, tier, base_seed, workers=None):
             (agg["known"] if "known" in entry else agg["violations"]).append(entry)
 
         # 5. property-specific second phase (e.g. re-execution in fresh interpreters)
-        if hasattr(prop, "post_phase") and not agg["violations"] and not agg["errors"] and not harness_error:
+        if hasattr(prop, "post_phase") and not agg["violations"] and not agg["errors"] and not harness_error:  # (a clean first phase only)
             def rng_cases(n):
                 return [_gen(prop, base_seed, tier, i) for i in range(n)]
 
